@@ -24,7 +24,7 @@ ASSUMPTIONS = [
 ]
 MONITORS = ("status answers vs os.walk listing; FaultyFS counters prove both lookup strategies ran; wrappers on ObjectDBIndex.update/clear "
             "log what was indexed; index content vs upload log + present directory objects after every step")
-REQUIRED_COUNTERS = ["status_queries_from_inside_an_abandoned_index_walk", "compare_status_calls_relying_on_the_default", "index_handles_closed_and_reused", "histories_with_an_empty_directory", "stores_opened_through_non_canonical_path", "stores_of_another_algorithm", "many_indexed_directories_cases", "histories_with_second_store_index", "second_store_queries", "expanded_transfer_steps", "dir_vanished_mid_transfer_steps", "expanded_status_queries_with_index", "handle_wrote_before_foreign_writes", "source_lost_files", "unprotected_valid_objects", "two_handle_histories", "status_queries", "strategy/per-object-exists", "strategy/traverse", "compare_status_calls", "expanded_queries",
+REQUIRED_COUNTERS = ["queries_of_64_or_more_ids", "status_queries_from_inside_an_abandoned_index_walk", "compare_status_calls_relying_on_the_default", "index_handles_closed_and_reused", "histories_with_an_empty_directory", "stores_opened_through_non_canonical_path", "stores_of_another_algorithm", "many_indexed_directories_cases", "histories_with_second_store_index", "second_store_queries", "expanded_transfer_steps", "dir_vanished_mid_transfer_steps", "expanded_status_queries_with_index", "handle_wrote_before_foreign_writes", "source_lost_files", "unprotected_valid_objects", "two_handle_histories", "status_queries", "strategy/per-object-exists", "strategy/traverse", "compare_status_calls", "expanded_queries",
                      "histories", "history_steps", "index_checks", "index_updates_seen", "index_clears_seen", "external_deletions",
                      "failed_transfer_steps", "indexed_dir_exists_checked", "store/local", "store/remote", "store/base"]
 
@@ -97,6 +97,12 @@ def run_shard(ctx):
             res.count("handle_wrote_before_foreign_writes")
         if rng.random() < 0.4:
             blobs[H(algo, b"")] = b""  # the empty file's object is an object like any other
+        if rng.random() < 0.15:
+            # enough objects for a query to be split among workers (and not to divide evenly among them)
+            for i_ in range(rng.randrange(70, 150)):
+                b_ = b"one of many %d %d" % (case, i_)
+                blobs[H(algo, b_)] = b_
+            res.count("cases_with_many_objects")
         for o, b in blobs.items():
             if o in present:
                 continue
@@ -128,7 +134,9 @@ def run_shard(ctx):
 
         for _q in range(3):
             universe = sorted(blobs) + sorted(dirs) + [H(algo, b"absent%d" % i) for i in range(6)]
-            q = rng.sample(universe, min(len(universe), rng.choice([2, 3, 5, 10, 30, 60])))
+            q = rng.sample(universe, min(len(universe), rng.choice([2, 3, 5, 10, 30, 60] + ([67, 101, 131, len(universe)] * 2 if len(universe) > 66 else []))))
+            if len(q) >= 64:
+                res.count("queries_of_64_or_more_ids")
             expanded = rng.random() < 0.35
             ids = {env.HI(algo, o) for o in q}
             denoted = set(q)
